@@ -940,11 +940,22 @@ def delete_pointless_statements(source: str) -> str:
     """
     ast_tree = core.parse(source)
     safe_callables = parsing.safe_callable_names(ast_tree)
+    # Binding `_` is no side effect by convention, unless the program reads `_`
+    underscore_is_read = any(core.walk(ast_tree, ast.Name(id="_", ctx=(ast.Load, ast.Del))))
+    binds_underscore = (
+        ast.Name(id="_", ctx=ast.Store),
+        ast.FunctionDef(name="_"),
+        ast.AsyncFunctionDef(name="_"),
+        ast.ClassDef(name="_"),
+    )
     for node in itertools.chain([ast_tree], parsing.iter_bodies_recursive(ast_tree)):
         for i, child in enumerate(node.body):
             if not core.has_side_effect(child, safe_callables):
                 if _evaluation_raises(child):
                     continue  # e.g. int("x") in a try block
+
+                if underscore_is_read and any(core.walk(child, binds_underscore)):
+                    continue
 
                 if i > 0 or not _is_pointless_string(child):  # Docstring
                     yield child, None
